@@ -23,7 +23,11 @@ INLINE_TAGS_SKIP = {"pre", "nowiki", "math", "hiero", "chem", "ce", "gallery", "
 ARG_ATOMS = {"a": "a", "b c": "b c", "k=v": "k=v", " x ": " x ", "1=z": "1=z", "t{{a|y}}": "t<TEMPLATE>", "[[l]]": "<LINK>", "": "",
              "q r": "q r", "[[l|b [x] c]]": "<LINK>", "[[a [x] b]]": "<LINK>", "[x]": "[x]", "[http://x.y e]": "<URL>",
              "[[l|see [http://x.y s] now]]": "<LINK>", "k=[[l|b [1] c]]": "k=<LINK>", "{{a|[[l|[y]]]}}": "<TEMPLATE>",
-             "{{{1|d}}}": "<TEMPLATE_ARG>", "{{#if:a|b}}": "<PARSER_FN>", "x{{lc:Foo}}": "x<PARSER_FN>", "{{PAGENAME}}": "<PARSER_FN>"}
+             "{{{1|d}}}": "<TEMPLATE_ARG>", "{{#if:a|b}}": "<PARSER_FN>", "x{{lc:Foo}}": "x<PARSER_FN>", "{{PAGENAME}}": "<PARSER_FN>",
+             # line breaks inside a call: what follows them is argument text, not a list, a heading or preformatted text --
+             # also after a bracketed address earlier in the same call
+             "see [http://x.y e]\n* b": "see <URL>\n* b", "[http://x.y e]\n": "<URL>\n", " q = c\n": " q = c\n", "\n* li": "\n* li",
+             "\n: dd": "\n: dd", "\n x": "\n x", "[http://x.y]\n# n": "<URL>\n# n"}
 
 
 def gen_attrs(rng, maxn=3):
@@ -231,7 +235,7 @@ def run(run):
         args = [rng.choice(list(ARG_ATOMS)) for _ in range(rng.randint(0, 5))]
         kind = rng.choice(["link", "template", "ext"])
         if kind == "link":
-            args = [a if "[" not in a else "l" for a in args]
+            args = [a if "[" not in a and "\n" not in a else "l" for a in args]
             texts.append("[[Target" + "".join("|" + a for a in args) + "]]"); checks.append(("link", ["Target"] + args))
         elif kind == "template":
             texts.append("{{tpl" + "".join("|" + a for a in args) + "}}"); checks.append(("template", ["tpl"] + args))
